@@ -16,7 +16,7 @@ Section Lift.
   Hypothesis R_exit : forall n s, R s (add_log (EvExit n) (set_status n s)).
   Hypothesis R_next : forall s res s', next_line e s = (res, s') -> res <> NLUnmod -> R s s'.
   Hypothesis R_drop : forall s, R s (drop_file s).
-  Hypothesis R_setline : forall l s, R s (set_line l s).
+  Hypothesis R_setline : forall l s, R s (set_line e l s).
   Hypothesis R_out : forall o s, R s (add_out o s).
   Variable G : U -> Prop.            (* an invariant of the program's own state *)
   Hypothesis Hprog : forall u s, G u -> Q (fst (step u s)) /\ G (snd (step u s)).
@@ -118,8 +118,8 @@ Section Lift.
     destruct (next_line e s) as [res s1] eqn:HN.
     destruct res as [r| | | |]; cbn; try exact I.
     - assert (H1 : R s s1) by (eapply R_next; [exact HN|discriminate]).
-      pose proof (exec_rules_lift fuel rules 0 [] flags u (set_line r s1) HG) as H2.
-      destruct (exec_rules U step enter e fuel rules 0 [] flags u (set_line r s1)) as [| |u' s' fl'|o u' s']; cbn in *; try exact I.
+      pose proof (exec_rules_lift fuel rules 0 [] flags u (set_line e r s1) HG) as H2.
+      destruct (exec_rules U step enter e fuel rules 0 [] flags u (set_line e r s1)) as [| |u' s' fl'|o u' s']; cbn in *; try exact I.
       + destruct H2 as [H2 HG2]. eapply lres_R_trans; [|apply IH; exact HG2].
         eapply R_trans; [exact H1|]. eapply R_trans; [apply R_setline|exact H2].
       + destruct H2 as [H2 HG2]. split; [|exact HG2].
